@@ -23,7 +23,9 @@ ASSUMPTIONS = ["renamings are injective and avoid C keywords / reserved names tr
 POOL = ["zz", "a1", "m_", "B", "k9", "Q", "aa", "_t", "y2", "Z0", "c", "hh", "p", "X", "d4", "b",
         # other shapes of identifier: all capitals, underscores, keyword prefixes, long names
         "LIMIT", "MAX_N", "NN", "A_", "_", "__x", "l1", "O0", "if_", "Int", "x_y_z", "TRUE", "False", "loop", "index", "i",
-        "a_rather_long_variable_name_1"]
+        "a_rather_long_variable_name_1",
+        # short names, substrings of other words (keywords, `true`, `false`): a name test by containment instead of equality shows here
+        "t", "s", "e", "a", "l", "r", "u", "al", "se", "ru", "ue", "fal", "tr", "in", "nt", "wh", "fo", "o", "do_", "el"]
 IDENT = re.compile(r"\b([A-Za-z_][A-Za-z_0-9]*)\b")
 KEEP = {"int", "long", "if", "else", "while", "do", "for", "return", "sizeof", "assert", "break", "f", "g"}
 
@@ -233,6 +235,34 @@ def run(ctx):
         strict = r.random() < 0.3
         check("braces", a_, b_, None, r.random() < 0.5, strict)
         loop_check("braces", a_, b_, strict)
+
+    # directed family: EVERY name of the pool in the guard position of a counted loop / in a loop condition / as an operand
+    for nm in POOL:
+        if nm in KEEP or nm in ("i", "x", "y"):
+            continue
+        base = "int f(int x, int y, int n, int i)\n{\n  for (i = 0; i < n; i++) { x = x + y; }\n  while (n > y) { y = y + n; }\n}\n"
+        ren = {"n": nm}
+        strict = ctx.rng.random() < 0.5
+        check("rename", base, rename_text(base, ren), ren, ctx.rng.random() < 0.5, strict)
+        la, lb = loop_obs(base, None, strict), loop_obs(rename_text(base, ren), ren, strict)
+        kinds["loop-rename"] += 1
+        if la != lb:
+            failing.append({"what": f"loop-rename: loop-mode result changes when the guard is called {nm!r}", "sig": ["C12", "loop-rename"],
+                            "input": {"src": base, "rename": ren, "opts": {"strict": strict}}, "expected": la, "observed": lb})
+    # directed family: a loop / conditional directly (without braces) under a loop / conditional, against the braced spelling
+    heads = ["for (i = 0; i < n; i++)", "while (x > 0)", "if (y > 0)", "do", "if (y > 0) x = y; else"]
+    inners = ["for (i = 0; i < n; i++) { x = x + y; }", "while (y > 0) { y = x; }", "do { x = x + y; } while (y > 0);",
+              "for (j = 0; j < m; j++) while (y > 0) { y = x + x; }"]
+    for h in heads:
+        for inner in inners:
+            if "i < n" in h and "i < n" in inner:
+                continue
+            tail = " while (x > y);" if h == "do" else ""
+            a_ = f"int f(int x, int y, int n, int m, int i, int j)\n{{\n  {h} {inner}{tail}\n}}\n"
+            b_ = f"int f(int x, int y, int n, int m, int i, int j)\n{{\n  {h} {{ {inner} }}{tail}\n}}\n"
+            strict = ctx.rng.random() < 0.3
+            check("braces", a_, b_, None, ctx.rng.random() < 0.5, strict)
+            loop_check("braces", a_, b_, strict)
 
     for i in range(n):
         cfg = streams.cfg_for(ctx.rng, 5)
